@@ -16,8 +16,6 @@ structure SimEnv where
   staticPlans : List (Oid × List (Nat × Mid × Nat × Nat)) := []
   deriving Repr, Inhabited
 
-def failPid : Nat := 1000000000
-
 /-- the oracle as a function of the state -/
 def SimEnv.oracle (env : SimEnv) (s : Sys) : Oracle :=
   let plan := match s.buf.nextForProcessing.2 with
@@ -29,14 +27,19 @@ def SimEnv.oracle (env : SimEnv) (s : Sys) : Oracle :=
     schedules the failure of its process event (NORMAL, now): SimPy lets the
     older events of that instant run before the exception leaves `env.run`. -/
 def simHandler (env : SimEnv) : Handler Sys := fun s pid _now =>
-  if pid = failPid then ({ s with halted := true }, [], none)
-  else
-    let (s1, y) := s.resume pid (env.oracle s)
-    let spawned := (List.range (s1.nextPid - s.nextPid)).map (· + s.nextPid)
-    match y with
-    | .timeout d => (s1, spawned, some d)
-    | .done => (s1, spawned, none)
-    | .raised _ => (s1, spawned ++ (if s.crashed.isNone then [failPid] else []), none)
+  match s.proc? pid with
+  | none => ({ s with halted := true }, [], none)
+  | some p =>
+    if !p.alive then
+      -- the failed process event is popped: the exception leaves `env.run`
+      ({ s with halted := true }, [], none)
+    else
+      let (s1, y) := s.resume pid (env.oracle s)
+      let spawned := (List.range (s1.nextPid - s.nextPid)).map (· + s.nextPid)
+      match y with
+      | .timeout d => (s1, spawned, some d)
+      | .done => (s1, spawned, none)
+      | .raised _ => (s1, spawned, some 0)      -- failure event: NORMAL, now, after the inits it created
 
 abbrev SimState := KState Sys
 
